@@ -1,14 +1,17 @@
 import EinoV.Oracle.C05GraphCase
 import EinoV.Oracle.C05Eager
+import EinoV.Oracle.C06Fault
 
 namespace EinoV.Oracle.C06
 open Lean EinoV
 
 /-- same case language and model run as C05 (the C06 harness compares the interrupt observables);
-    kind "eager": the eager-workflow family shared with C05 (uninterrupted reference run) -/
+    kind "eager": the eager-workflow family shared with C05 (uninterrupted reference run);
+    kind "fault": the graph cases under a checkpoint store that fails (Model/C06Fault.lean) -/
 def handle (c : Json) : JE Json :=
   match c.getObjVal? "kind" with
   | .ok (.str "eager") => C05Eager.handle c
+  | .ok (.str "fault") => C06Fault.handle c
   | _ => C05GraphCase.handle c
 
 end EinoV.Oracle.C06
